@@ -20,6 +20,11 @@ DIRECTIONS = [
     (1.0, -1.0, 1.0), (-1.0, 1.0, 1.0), (1.0, 1.0, -1.0),
 ]
 N_QUICK_DIRS = 6
+# deep (thorough) tiers: the 18 above + nearly-axis, nearly-diagonal and integer-valued directions
+DIRECTIONS_DEEP = [
+    *DIRECTIONS, (1.0, 1e-8, 0.0), (1e-3, 1.0, -1e-3), (1.0, 1.0, 1e-12), (-1.0, 2.0, 2.0), (0.0, 3.0, 4.0), (2.0, -3.0, 6.0),
+    (0.123, -0.456, 0.789), (-1e-5, -1e-5, -1.0),
+]
 
 CUBE = geom.cube_rotations()  # 24 exact rotations, identity first
 
